@@ -1176,8 +1176,9 @@ fn extras(thorough: bool) -> Vec<Extra> {
     v
 }
 
-fn run_extras(rep: &Arc<Report>) -> (u64, u64) {
+fn run_extras(rep: &Arc<Report>) -> (u64, u64, u64) {
     let ex = extras(rep.thorough());
+    let mut distinct: std::collections::HashSet<u128> = Default::default();
     let mut checked = 0u64;
     let mut ood = 0u64;
     for e in &ex {
@@ -1191,7 +1192,10 @@ fn run_extras(rep: &Arc<Report>) -> (u64, u64) {
                 checked += 1;
                 let fail = match catch(|| (e.real)(d, build)) {
                     Err(p) => Some(Fail::new("render-panic", format!("{} {mode}: rendering panicked: {p}", d.name()))),
-                    Ok(real) => compare(d, mode, &real, &reference),
+                    Ok(real) => {
+                        distinct.insert(crate::util::fp_str(&real));
+                        compare(d, mode, &real, &reference)
+                    }
                 };
                 if let Some(f) = fail {
                     rep.raw_failures.inc();
@@ -1203,7 +1207,7 @@ fn run_extras(rep: &Arc<Report>) -> (u64, u64) {
             }
         }
     }
-    (checked, ood)
+    (checked, ood, distinct.len() as u64)
 }
 
 pub fn run(rep: &Arc<Report>) {
@@ -1222,7 +1226,10 @@ pub fn run(rep: &Arc<Report>) {
         outcomes += s2.outcomes;
         exhaustive &= s2.exhaustive;
     }
-    let (xc, xo) = run_extras(rep);
+    let (xc, xo, xd) = run_extras(rep);
+    let (api_cmp, api_variants) = crate::props::apivar::run(rep, &[Dialect::Mysql, Dialect::Postgres]);
+    rep.set("api_variant_comparisons", json!(api_cmp));
+    rep.set("api_variants", json!(api_variants));
     rep.set("states", json!(states + xc));
     rep.set("transitions", json!(transitions));
     rep.set("max_depth", json!({"select": ds, "dml": dd}));
@@ -1233,14 +1240,18 @@ pub fn run(rep: &Arc<Report>) {
     rep.set("out_of_domain_dialect_cannot_express", json!(OOD.get() + xo));
     rep.set("traces_validated_against_impl", json!(CHECKED.get() + xc));
     rep.set("evaluations", json!(CHECKED.get() + xc));
-    rep.set("distinct_nontrivial", json!(outcomes + xc));
-    rep.set("rule", json!("BFS over builder-call histories of SELECT / INSERT / UPDATE / DELETE (state = real statement) plus enumerated families of dialect-specific constructs; every state rendered on MySQL and PostgreSQL in both modes, parsed by the dialect's reference clause parser and compared with the parse of the explicit reference rendering"));
+    rep.set("distinct_nontrivial", json!(outcomes + xd));
+    rep.set("dialect_construct_distinct_texts", json!(xd));
+    rep.set("rule", json!("BFS over builder-call histories of SELECT / INSERT / UPDATE / DELETE (state = real statement) plus enumerated families of dialect-specific constructs; every state rendered on MySQL and PostgreSQL in both modes, parsed by the dialect's reference clause parser and compared with the parse of the explicit reference rendering; distinct_nontrivial = distinct SQLite renderings of the machine states + distinct rendered texts of the construct cases"));
     rep.set("exhaustive", json!(exhaustive));
     rep.sample(json!({"mysql_reference": RefR::new(Dialect::Mysql, true).sel(&crate::smodel::nested_pool()[2]), "postgres_reference": RefR::new(Dialect::Postgres, true).sel(&crate::smodel::nested_pool()[3])}));
     rep.assume("MySQL 8.0 and PostgreSQL clause grammars transcribed from the manuals' statement synopses (no engine offline); requests a dialect cannot express (FULL OUTER JOIN on MySQL, CROSS JOIN .. ON and UPDATE / DELETE .. ORDER BY / LIMIT on PostgreSQL, REPLACE on PostgreSQL, PostgreSQL-only lock strengths, operators and functions on MySQL) are out of domain and counted; set operations are compared as a flat list (their precedence is C09's subject)");
 }
 
 pub fn replay(case: &serde_json::Value) -> Option<String> {
+    if case["kind"].as_str() == Some("api-variant") {
+        return crate::props::apivar::replay(case);
+    }
     if case["kind"].as_str() == Some("construct") {
         let name = case["name"].as_str().unwrap_or("");
         let d = Dialect::from_name(case["dialect"].as_str().unwrap_or("mysql"));
